@@ -3,8 +3,8 @@ from ..core import Script, Rng
 from ..stage import LineStage, replay_line
 from .common import *
 
-ARTEFACTS = ["G1-consts", "G2-rs-portable", "G2-ref-compress", "G15-rs-sse41", "G24-portable-many", "G16-rs-avx2", "G17-rs-sse2", "G21-c-avx512", "G21-c-avx512-prog", "G18-c-sse41", "G19-c-sse2", "G20-c-avx2", "G27-asm-sse41-compress", "G29-asm-sse2-compress", "G30-asm-avx512-compress", "G31-asm-avx512-compress-wgnu", "G32-asm-sse41-compress-wgnu", "G33-asm-sse2-compress-wgnu", "G37-asm-sse41-compress-msvc", "G40-asm-sse2-compress-msvc", "G41-asm-avx512-compress-msvc", "G34-asm-sse41-hash-many"]
-EXTRA_PROPS = [("B3.Simd.Sse41Props", "B3/Simd/Sse41Props.lean"), ("B3.Simd.Sse41PropsMany", "B3/Simd/Sse41PropsMany.lean"), ("B3.Props.C05P", "B3/Props/C05P.lean"), ("B3.Simd.Avx2Props", "B3/Simd/Avx2Props.lean"), ("B3.Simd.Sse2Props", "B3/Simd/Sse2Props.lean"), ("B3.Simd.CAvx512Props", "B3/Simd/CAvx512Props.lean"), ("B3.Simd.CSse41Props", "B3/Simd/CSse41Props.lean"), ("B3.Simd.CSse2Props", "B3/Simd/CSse2Props.lean"), ("B3.Simd.CAvx2Props", "B3/Simd/CAvx2Props.lean"), ("B3.Props.C05A", "B3/Props/C05A.lean"), ("B3.Props.C05B", "B3/Props/C05B.lean"), ("B3.Props.C05BW", "B3/Props/C05BW.lean"), ("B3.Props.C05W", "B3/Props/C05W.lean"), ("B3.Props.C05WM", "B3/Props/C05WM.lean"), ("B3.Props.C05M", "B3/Props/C05M.lean")]
+ARTEFACTS = ["G1-consts", "G2-rs-portable", "G2-ref-compress", "G15-rs-sse41", "G24-portable-many", "G16-rs-avx2", "G17-rs-sse2", "G21-c-avx512", "G21-c-avx512-prog", "G18-c-sse41", "G19-c-sse2", "G20-c-avx2", "G27-asm-sse41-compress", "G29-asm-sse2-compress", "G30-asm-avx512-compress", "G31-asm-avx512-compress-wgnu", "G32-asm-sse41-compress-wgnu", "G33-asm-sse2-compress-wgnu", "G37-asm-sse41-compress-msvc", "G40-asm-sse2-compress-msvc", "G41-asm-avx512-compress-msvc", "G34-asm-sse41-hash-many", "G44-asm-sse41-hash-many-wgnu"]
+EXTRA_PROPS = [("B3.Simd.Sse41Props", "B3/Simd/Sse41Props.lean"), ("B3.Simd.Sse41PropsMany", "B3/Simd/Sse41PropsMany.lean"), ("B3.Props.C05P", "B3/Props/C05P.lean"), ("B3.Simd.Avx2Props", "B3/Simd/Avx2Props.lean"), ("B3.Simd.Sse2Props", "B3/Simd/Sse2Props.lean"), ("B3.Simd.CAvx512Props", "B3/Simd/CAvx512Props.lean"), ("B3.Simd.CSse41Props", "B3/Simd/CSse41Props.lean"), ("B3.Simd.CSse2Props", "B3/Simd/CSse2Props.lean"), ("B3.Simd.CAvx2Props", "B3/Simd/CAvx2Props.lean"), ("B3.Props.C05A", "B3/Props/C05A.lean"), ("B3.Props.C05B", "B3/Props/C05B.lean"), ("B3.Props.C05BW", "B3/Props/C05BW.lean"), ("B3.Props.C05W", "B3/Props/C05W.lean"), ("B3.Props.C05WM", "B3/Props/C05WM.lean"), ("B3.Props.C05M", "B3/Props/C05M.lean"), ("B3.Props.C05MW", "B3/Props/C05MW.lean")]
 RULE = ("kernel calls, compared with the model's kernels (generated from src/portable.rs, proved = Spec.compress): single-block "
         "kernels on the grid block_len 0..64 x flag byte classes with random cv/block and counters from {0,1,2^32-1,2^32,2^32+1,2^63,"
         "2^64-1,random}; hash_many with num_inputs 0..2*degree+3, blocks in {1,16}, counters 2^32-k (k<=17) and near 2^64 so every "
@@ -13,7 +13,7 @@ RULE = ("kernel calls, compared with the model's kernels (generated from src/por
         "and prefer_intrinsics (C intrinsics) builds, and for every C symbol flavour incl. the Windows-GNU assembly through ms_abi (also with garbage above every narrow argument, `CK dirty 1|2`, which the Microsoft convention allows); Rust hash_many is called with an exact and with a longer output slice; "
         "non-trivial = every call (distinct arguments); distinct = distinct op line")
 ASSUMPTIONS = ["hand-written assembly: the single-block routines (compress_in_place, compress_xof) of the unix, Windows-GNU and MSVC SSE4.1, SSE2 and "
-               "AVX-512 files and blake3_hash_many_sse41 of the unix file are translated instruction by instruction and proved equal to the "
+               "AVX-512 files and blake3_hash_many_sse41 of the unix and of the Windows-GNU file are translated instruction by instruction and proved equal to the "
                "specification under the machine semantics B3/Asm/Sse.lean, Avx512Sem.lean, WinSem.lean, ManySem.lean (trusted; run against the CPU "
                "here); the other many-input assembly routines (hash_many of SSE2 / AVX2 / AVX-512 and of the Windows files, xof_many) are not "
                "modelled at instruction level: a defect in them confined to an argument class no generator produces would be missed",
@@ -358,11 +358,27 @@ class AsmManyStage:
     (G34) and run by the machine semantics B3/Asm/ManySem.lean, against the assembled routine on the CPU: outputs, no fault,
     callee-saved registers and rsp restored, no byte outside `out` and the frame touched"""
     name = "asm-hash-many-semantics-vs-cpu"
+    # (cdriver symbol, runner script, lake module): the unix routine (G34) and the Windows-GNU one (G44, called through ms_abi)
+    TARGETS = [("sse41_asm", "RunAsmMany.lean", "B3.Asm.RunMany"), ("win_sse41_asm", "RunAsmManyW.lean", "B3.Asm.RunManyW")]
 
     def __init__(self, seed, tier):
         self.seed, self.tier = seed, tier
 
     def run(self, lean_exe):
+        res = None
+        for sym, script, mod in self.TARGETS:
+            r = self.run_one(lean_exe, sym, script, mod)
+            if res is None:
+                res = r
+            else:
+                res["evaluations"] += r["evaluations"]
+                res["distinct"] |= r["distinct"]
+                res["mismatches"] += r["mismatches"]
+                for k, v in r["hist"].items():
+                    res["hist"][k] = res["hist"].get(k, 0) + v
+        return res
+
+    def run_one(self, lean_exe, sym, script, mod):
         from .. import core
         import subprocess
         rng = Rng(self.seed)
@@ -387,18 +403,18 @@ class AsmManyStage:
                         inoff, outoff = rng.randrange(64), rng.randrange(64)
                         r9 = incr if mode == 0 else (incr | 0xA5C3A5C300000000) if mode == 1 else (incr | 0xA5C3A5C3A5C3A500)
                         # (`CK dirty 2` is not used here: the unix routine consumes all 32 bits of r9d - latent, see DESIGN)
-                        c_lines += [f"CK dirty {mode}", f"CK hmany sse41_asm {n} {blocks} {seed} {key} {counter} {incr} {fl} {fs} {fe} {inoff} {outoff}"]
+                        c_lines += [f"CK dirty {mode}", f"CK hmany {sym} {n} {blocks} {seed} {key} {counter} {incr} {fl} {fs} {fe} {inoff} {outoff}"]
                         meta += [None, len(l_lines)]
-                        l_lines.append(f"hmany {n} {blocks} {seed} {key} {counter} {r9} {fl} {fs} {fe} {inoff} {outoff} fast")
+                        l_lines.append(f"{'hmanyw' if sym.startswith('win_') else 'hmany'} {n} {blocks} {seed} {key} {counter} {r9} {fl} {fs} {fe} {inoff} {outoff} fast")
         c_lines.append("CK dirty 0")
         meta.append(None)
         rc, out, _ = core.run_driver(cexe, c_lines)
-        rcb, outb = core.run(["lake", "build", "B3.Asm.RunMany"], cwd=core.LEAN_DIR, timeout=7200)
+        rcb, outb = core.run(["lake", "build", mod], cwd=core.LEAN_DIR, timeout=7200)
         if rcb != 0:
             return dict(evaluations=0, distinct=set(), hist={}, samples=[],
-                        mismatches=[dict(kind="driver-crash", impl_name="c", ops=[], note="B3.Asm.RunMany does not build", log_tail=outb[-1500:])])
+                        mismatches=[dict(kind="driver-crash", impl_name="c", ops=[], note=mod + " does not build", log_tail=outb[-1500:])])
         try:
-            pr = subprocess.run(["lake", "env", "lean", "--run", "RunAsmMany.lean"], cwd=core.LEAN_DIR, input="\n".join(l_lines) + "\n",
+            pr = subprocess.run(["lake", "env", "lean", "--run", script], cwd=core.LEAN_DIR, input="\n".join(l_lines) + "\n",
                                 stdout=subprocess.PIPE, stderr=subprocess.PIPE, text=True, timeout=6000)
             mo = pr.stdout.split("\n")
         except subprocess.TimeoutExpired:
@@ -421,7 +437,7 @@ class AsmManyStage:
                 mism.append(dict(kind="impl-vs-model", impl_name="c", ops=[a], impl_differs=True, impl_output=x[:300], model_output=y[:300],
                                  note="blake3_hash_many_sse41 on the CPU differs from the translated instruction list under the machine semantics "
                                       "(or the model run faulted / lost a register / touched memory outside out and its frame); model input: " + l_lines[j][:200]))
-        return dict(evaluations=evals, distinct=set(l_lines), hist={"cases": evals}, samples=[], mismatches=mism)
+        return dict(evaluations=evals, distinct={sym + ":" + l for l in l_lines}, hist={sym: evals}, samples=[], mismatches=mism)
 
 
 def win_dirty_scripts(rng, n):
